@@ -218,7 +218,10 @@ _check_fs = Contract(
              'python_bytes_to_unicode(raw_of(file_io), errors="replace"))).is_compiled(), result is not None)'],
     witness={}, replay=_replay_check_fs, concrete_only=True,
     witness_library=[{'encoding': 'gbk', 'text': '\u4e2d\u6587\u6807\u7b7e'}, {'encoding': 'latin-1', 'text': 'caf\xe9 \xfcber'},
-                     {'encoding': 'utf-8', 'text': '\u4e2d\u6587'}],
+                     {'encoding': 'utf-8', 'text': '\u4e2d\u6587'},
+                     # characters that Unicode normalisation would change: the text must stay as it is in the file
+                     {'encoding': 'utf-8', 'text': '\ufb01le e\u0301 \u2026 \u00a0x \uff58 \u212b'},
+                     {'encoding': 'latin-1', 'text': 'a\xa0b \xb5 \xbd'}],
     concrete_ensures=['PARSED_TEXT == EXPECTED_TEXT', 'PARSED_TEXT == REAL_TEXT'],
 )
 
